@@ -46,9 +46,51 @@ def _locks(repo):
     return out
 
 
+def _class_state(cls: ast.ClassDef):
+    """(lock slots, mutable state slots) of a class, read off its __init__: a slot assigned the result of a call (Lock(),
+    RLock(), lock_type()) that some method enters with `with self.<slot>` is a lock; a slot assigned a dictionary / list /
+    set display or constructor call, or a bound method of such a slot, is mutable state."""
+    init = next((f for f in cls.body if isinstance(f, ast.FunctionDef) and f.name == '__init__'), None)
+    entered = {x.context_expr.attr for f in cls.body if isinstance(f, ast.FunctionDef) for w in ast.walk(f)
+               if isinstance(w, ast.With) for x in w.items
+               if isinstance(x.context_expr, ast.Attribute) and dotted(x.context_expr.value) == 'self'}
+    locks, state = set(), set()
+    if init is None:
+        return locks, state
+    for a in walk_shallow(init):
+        if not isinstance(a, (ast.Assign, ast.AnnAssign)) or getattr(a, 'value', None) is None:
+            continue
+        t = a.targets[0] if isinstance(a, ast.Assign) else a.target
+        if not (isinstance(t, ast.Attribute) and dotted(t.value) == 'self'):
+            continue
+        v = a.value
+        if t.attr in entered:
+            locks.add(t.attr)
+        elif isinstance(v, (ast.Dict, ast.List, ast.Set)) or (isinstance(v, ast.Call) and (dotted(v.func) or '').split('.')[-1] in (
+                'dict', 'list', 'set', 'defaultdict', 'deque', 'OrderedDict')):
+            state.add(t.attr)
+        elif isinstance(v, ast.Attribute) and isinstance(v.value, ast.Attribute) and dotted(v.value.value) == 'self' and v.value.attr in state:
+            state.add(t.attr)          # self._get = self._table.get
+    return locks, state
+
+
+def _enclosing_lock_with(node, fn, locks):
+    """id of the innermost `with self.<lock>` statement around node inside fn, or None."""
+    w = parent(node)
+    while w is not None and w is not fn:
+        if isinstance(w, (ast.With, ast.AsyncWith)) and any(
+                isinstance(i.context_expr, ast.Attribute) and i.context_expr.attr in locks and dotted(i.context_expr.value) == 'self'
+                for i in w.items):
+            return id(w)
+        w = parent(w)
+    return None
+
+
 def run(ctx):
     repo = ctx.repo
     locks = _locks(repo)
+    _LOCK_NAMES.clear()
+    _LOCK_NAMES.update(q.rsplit('.', 1)[-1] for q in locks)
     tables = _module_tables(repo)
     writers = _writers(repo, tables)
 
@@ -100,21 +142,29 @@ def run(ctx):
     ctx.rule('C15.R2', 'BeartypeConf.__new__ and the CacheUnboundedStrong / CacheLruStrong / KeyPool methods perform '
              'lookup, construction and store inside one `with <lock>` block (no release between check and act)')
     cm = repo.mod('beartype._util.cache.map.utilmapunbounded')
+    ccls = cm.defs.get('CacheUnboundedStrong')
+    ctx.require(ccls is not None, 'anchor vanished: CacheUnboundedStrong')
+    clocks, cstate = _class_state(ccls)
+    ctx.require(clocks and cstate, f'CacheUnboundedStrong: lock / table slots not recognised (locks {sorted(clocks)}, state {sorted(cstate)})')
     for meth in ('cache_or_get_cached_value', 'cache_or_get_cached_func_return_passed_arg', 'clear'):
         fn = repo.find_def(cm.name, f'CacheUnboundedStrong.{meth}')
-        uses = [x for x in walk_shallow(fn) if isinstance(x, ast.Attribute) and x.attr.startswith('_key_to_value')
-                and dotted(x.value) == 'self']
-        withs = {id(_enclosing_with(x, fn)) for x in uses}
-        ok = bool(uses) and None not in {_enclosing_with(x, fn) for x in uses} and len(withs) == 1
+        uses = [x for x in walk_shallow(fn) if isinstance(x, ast.Attribute) and x.attr in cstate and dotted(x.value) == 'self']
+        regions = {_enclosing_lock_with(x, fn, clocks) for x in uses}
+        ok = bool(uses) and None not in regions and len(regions) == 1
         ctx.ob('C15.R2', f'CacheUnboundedStrong.{meth}:one-critical-section', cm.where(fn),
-               'all accesses of the table are inside one `with self._lock` block', ok,
-               f'{len(withs)} regions; unlocked access: {None in {_enclosing_with(x, fn) for x in uses}}')
+               'all accesses of the table are inside one `with self.<lock>` block', ok,
+               f'{len(regions)} regions; unlocked access: {None in regions}')
     pm = repo.mod('beartype._util.cache.pool.utilcachepool')
+    pcls = pm.defs.get('KeyPool')
+    ctx.require(pcls is not None, 'anchor vanished: KeyPool')
+    plocks, pstate = _class_state(pcls)
+    ctx.require(plocks and len(pstate) >= 2, f'KeyPool: lock / pool slots not recognised (locks {sorted(plocks)}, state {sorted(pstate)})')
     for meth in ('acquire', 'release'):
         fn = repo.find_def(pm.name, f'KeyPool.{meth}')
-        uses = [x for x in walk_shallow(fn) if isinstance(x, ast.Attribute) and x.attr in ('_key_to_pool', '_pool_item_id_to_is_acquired')]
-        ok = bool(uses) and all(_enclosing_with(x, fn) is not None for x in uses)
-        ctx.ob('C15.R2', f'KeyPool.{meth}:locked', pm.where(fn), 'pool state is only touched under the pool lock', ok, '')
+        uses = [x for x in walk_shallow(fn) if isinstance(x, ast.Attribute) and x.attr in pstate and dotted(x.value) == 'self']
+        ok = bool(uses) and all(_enclosing_lock_with(x, fn, plocks) is not None for x in uses)
+        ctx.ob('C15.R2', f'KeyPool.{meth}:locked', pm.where(fn), 'pool state is only touched under the pool lock', ok,
+               f'{[norm(x) for x in uses if _enclosing_lock_with(x, fn, plocks) is None][:3]} outside `with self.<lock>`')
     lm = repo.mod('beartype._util.cache.map.utilmaplru')
     lc = lm.defs.get('CacheLruStrong')
     if lc is not None:
@@ -138,11 +188,19 @@ def run(ctx):
         ctx.require(nl >= 3, f'CacheLruStrong: only {nl} methods touching the underlying dict were recognised')
     conf = repo.mod('beartype._conf.confmain')
     new = repo.find_def(conf.name, 'BeartypeConf.__new__')
-    acc = [x for x in walk_shallow(new) if isinstance(x, ast.Name) and x.id == '_beartype_conf_args_to_conf']
+    # the memo table, by role: the module-level empty dictionary (defined here or imported) that __new__ subscripts
+    def _is_memo(nm):
+        r = repo.resolve_name(conf, new, nm)
+        dm = repo.modules.get(r.module) if getattr(r, 'module', None) else None
+        sts = (dm.assigns.get(r.name, []) if dm is not None else []) or conf.assigns.get(nm, [])
+        return any(isinstance(getattr(s_, 'value', None), ast.Dict) and not s_.value.keys for s_ in sts)
+    memo = sorted({x.value.id for x in ast.walk(new) if isinstance(x, ast.Subscript) and isinstance(x.value, ast.Name) and _is_memo(x.value.id)})
+    ctx.require(len(memo) == 1, f'BeartypeConf.__new__: expected one memo dictionary, found {memo}')
+    acc = [x for x in walk_shallow(new) if isinstance(x, ast.Name) and x.id == memo[0]]
     withs = {id(_enclosing_with(x, new)) if _enclosing_with(x, new) is not None else None for x in acc}
     ctx.ob('C15.R2', 'BeartypeConf.__new__:one-critical-section', conf.where(new),
            'lookup and store of the configuration singleton share one critical section',
-           len(withs) == 1 and None not in withs and len(acc) >= 3, f'{len(withs)} regions for {len(acc)} accesses')
+           len(withs) == 1 and None not in withs and len(acc) >= 2, f'{len(withs)} regions for {len(acc)} accesses')
 
     # ---- R3 ----------------------------------------------------------------------
     pooled_typestate(ctx, 'C15.R3')
@@ -217,10 +275,14 @@ def _is_store(x):
     return False
 
 
+_LOCK_NAMES = set()     # names of the module-level locks of the repository (filled by run())
+
+
 def _enclosing_with(node, fn):
     p = parent(node)
     while p is not None and p is not fn:
-        if isinstance(p, (ast.With, ast.AsyncWith)) and any('lock' in norm(i.context_expr).lower() for i in p.items):
+        if isinstance(p, (ast.With, ast.AsyncWith)) and any(
+                'lock' in norm(i.context_expr).lower() or (dotted(i.context_expr) or '').split('.')[-1] in _LOCK_NAMES for i in p.items):
             return p
         p = parent(p)
     return None
@@ -274,6 +336,35 @@ def _cycle(edges):
     return None
 
 
+def _restores(repo, m, fn, a, t):
+    """The assignment puts back what the foreign module defines itself: the value is the library's own object of the
+    same name (reached through an import alias), or a local saved earlier from reading the very attribute patched."""
+    v = a.value
+    if isinstance(v, ast.Name):
+        r = repo.resolve_name(m, a, v.id)
+        if r.kind == 'external' and r.name.split('.')[-1] == t.attr:
+            return True
+        for b in walk_shallow(fn):
+            if isinstance(b, ast.Assign) and any(dotted(x) == v.id for x in b.targets) and norm(b.value) == norm(t) \
+                    and b.lineno < a.lineno:
+                return True
+    return False
+
+
+def _owners(m, fn, depth=0):
+    """Qualified names a patch site is attributed to: a private module-level helper (e.g. an extracted context manager)
+    counts as part of the functions that use it."""
+    qn = qualname_of(fn)
+    if depth >= 3 or not (fn.name.startswith('_') and not fn.name.startswith('__') and qn == fn.name):
+        return [qn]
+    out = []
+    for other in ast.walk(m.tree):
+        if isinstance(other, (ast.FunctionDef, ast.AsyncFunctionDef)) and other is not fn and any(
+                isinstance(x, ast.Name) and x.id == fn.name for x in ast.walk(other)):
+            out += _owners(m, other, depth + 1)
+    return sorted(set(out)) or [qn]
+
+
 def global_patches(ctx, rule):
     ctx.rule(rule, 'an assignment to an attribute of an imported foreign module (a process-global monkey-patch) made '
              'from a function must be serialised with every reader of that global; readers inside the foreign module '
@@ -292,11 +383,11 @@ def global_patches(ctx, rule):
                         if isinstance(t, ast.Attribute) and isinstance(t.value, ast.Name) and t.value.id in ext \
                                 and repo.resolve_name(m, t, t.value.id).kind in ('module', 'external'):
                             n += 1
-                            restores = 'original' in norm(a.value)
-                            if restores:
+                            if _restores(repo, m, fn, a, t):
                                 continue
-                            ctx.ob(rule, f'global-patch:{mn.split(".")[-1]}.{qualname_of(fn)}:{norm(t)}', m.where(a),
-                                   'no process-global of a foreign module is patched from concurrently callable code',
-                                   False, f'`{norm(a)[:90]}` replaces a global that other threads\' imports read without '
-                                   f'any lock')
+                            for owner in _owners(m, fn):
+                                ctx.ob(rule, f'global-patch:{mn.split(".")[-1]}.{owner}:{norm(t)}', m.where(a),
+                                       'no process-global of a foreign module is patched from concurrently callable code',
+                                       False, f'`{norm(a)[:90]}` replaces a global that other threads\' imports read without '
+                                       f'any lock')
     ctx.floor(rule, n, 1, 'assignments to attributes of foreign modules')
